@@ -191,6 +191,55 @@ def _norm_bounds(src, v):
 
 
 # ------------------------------------------------------------------ C19 alternative spellings
+def bound_atomicity(rep):
+    """A data-dependent bound is arbitrary inline Python (`e{`n or 2`}`): wherever List emits it into a
+    comparison, the whole bound is one operand - whatever operators it contains."""
+    rep.rule('BOUND-atomic', 'an inline-Python repetition bound is emitted as one operand of the length test '
+                             '(parenthesised), whatever operators it contains')
+    from . import skeleton as SK
+    w = SK.World()
+    n = 0
+    for text in ('p or q', 'p if c else q', 'p and q', 'lambda: 3', 'p, q'):
+        want = ast.dump(ast.parse(text, mode='eval').body)
+        for which in ('min_len', 'max_len'):
+            ch = {'e': SK.A('e', 'nCP')}
+            kw = {'min_len': None, 'max_len': None}
+            kw[which] = text
+            cfg = SK.Config('List', [ch['e']], kw, ch, label='List:bound-atomic')
+            try:
+                b = w.build(cfg)
+            except SK.Rejected:
+                continue
+            n += 1
+            if b.tree is None:
+                rep.oblige(False)
+                rep.add(Finding('BOUND-atomic', 'List', f'{which}={text!r}',
+                                f'List({which}={text!r}) emits code that is not valid Python',
+                                'sourcer/expressions/list.py:List._compile'))
+                continue
+            tests = [t for t in ast.walk(b.tree) if isinstance(t, (ast.If, ast.While))]
+            ok = False
+            seen = []
+            for t in tests:
+                for c in ast.walk(t.test):
+                    if isinstance(c, ast.Compare) and len(c.ops) == 1:
+                        sides = [c.left, c.comparators[0]]
+                        if any(isinstance(x, ast.Call) and isinstance(x.func, ast.Name) and x.func.id == 'len'
+                               for x in sides):
+                            seen.append(ast.unparse(t.test))
+                            if any(ast.dump(x) == want for x in sides):
+                                ok = True
+            rep.oblige(ok)
+            if not ok:
+                rep.add(Finding('BOUND-atomic', 'List', f'{which}={text!r}',
+                                f'List({which}=`{text}`) tests `{"; ".join(seen) or "nothing"}`: the bound is not one '
+                                f'operand of the length comparison (operator precedence tears it apart), so '
+                                f'`e{{`{text}`}}` does not repeat `({text})` times',
+                                'sourcer/expressions/list.py:List._compile'))
+    rep.count('compound bound texts checked', n)
+    rep.floor('compound bound texts checked', n, 8)
+
+
 def spelling_pairs(rep):
     rep.rule('MAP-spellings', 'each documented pair of spellings is translated to the same expression object '
                               '(class and attributes), by evaluating _create_parsing_expression on both syntax trees')
